@@ -98,6 +98,8 @@ func c10ErrClass(err error) string {
 		return "unavailable"
 	case strings.HasPrefix(err.Error(), "svc-error-from-"):
 		return "svc"
+	case func() bool { se, ok := err.(client.ServiceError); return ok && se.IsServiceError() && err.Error() == "" }():
+		return "svc" // a service error with an empty text
 	case strings.Contains(err.Error(), "vsrv: connection refused"):
 		return "dial"
 	default:
@@ -584,6 +586,22 @@ func runC10(r *common.Rand, tier string, o *common.Out, replay string) {
 		cases = keep
 	}
 	cases = append(cases, bcases...)
+	// in every third case the service errors carry an empty text: still service errors, not connection failures
+	for i := range cases {
+		if i%3 != 1 {
+			continue
+		}
+		cl := make([][]string, len(cases[i].calls))
+		for k, l := range cases[i].calls {
+			cl[k] = append([]string{}, l...)
+			for j, a := range cl[k] {
+				if a == "svc" {
+					cl[k][j] = "svc0"
+				}
+			}
+		}
+		cases[i].calls = cl
+	}
 	type resT struct {
 		obs   string
 		fails []string
